@@ -137,8 +137,8 @@ impl Sim {
             w.internal_modify_uuid(CANARY, &ml).expect("canary");
             w.commit().expect("commit");
         }
-        let d = srv::dump(self.qs.as_ref().expect("up")).await;
-        let Some(now) = cid_of(&d) else {
+        let dump = srv::dump(self.qs.as_ref().expect("up")).await;
+        let Some(now) = cid_of(&dump) else {
             acc.inconclusive("canary cid unreadable");
             return;
         };
